@@ -326,9 +326,9 @@ var c11VarPool = map[string][]hx.Val{
 	"c":  {hx.Bool(true), hx.Bool(false)},
 	"in": {hx.Map(hx.KV{Key: "r", V: hx.I64(1)}), hx.Map(hx.KV{Key: "r", V: hx.I64(2)}, hx.KV{Key: "s", V: hx.Str("given")}, hx.KV{Key: "l", V: hx.List(hx.I64(1), hx.I64(2))}),
 		hx.Map(hx.KV{Key: "i", V: hx.I64(1)}), hx.Map(hx.KV{Key: "r", V: hx.I64(3)}, hx.KV{Key: "n", V: hx.Map(hx.KV{Key: "y", V: hx.Bool(true)})})},
-	"l": {hx.List(hx.I64(1), hx.I64(2)), hx.List(), hx.List(hx.I64(5), hx.Nil()), hx.List(hx.F64(3))},
-	"e": {hx.Sym("RED"), hx.Sym("GREEN"), hx.Sym("BOGUS")},
-	"x": {hx.F64(2.5), hx.F64(-1), hx.I64(3)},
+	"l":   {hx.List(hx.I64(1), hx.I64(2)), hx.List(), hx.List(hx.I64(5), hx.Nil()), hx.List(hx.F64(3))},
+	"e":   {hx.Sym("RED"), hx.Sym("GREEN"), hx.Sym("BOGUS")},
+	"x":   {hx.F64(2.5), hx.F64(-1), hx.I64(3)},
 	"ind": {hx.Map(hx.KV{Key: "r", V: hx.I64(9)}, hx.KV{Key: "n", V: hx.Map(hx.KV{Key: "y", V: hx.Bool(false)}, hx.KV{Key: "x", V: hx.F64(0.5)})})},
 	"ml":  {hx.List(hx.Map(hx.KV{Key: "y", V: hx.Bool(true)})), hx.List()},
 	"ld":  {hx.List(hx.I64(8))},
